@@ -194,6 +194,7 @@ def clause_f(ctx, P):
 
 
 def run(ctx, P):
+    c13.clause_stop_paths(ctx, P, "C17g")
     f5.run_f5(ctx, P, {"addr"}, rule="C17a.F5.key-normalised", floor=8)
     clause_b(ctx, P)
     clause_c(ctx, P)
